@@ -309,6 +309,11 @@ func genC10(g *Gen, tier string, w *bufio.Writer) {
 		{Kind: KContainer, Fields: []*Ty{u8, {Kind: KBitlist, N: 9}}},
 		{Kind: KContainer, Fields: []*Ty{{Kind: KList, N: 2, Elem: &Ty{Kind: KBytesN, N: 32}}, {Kind: KUint, N: 2}, l4}},
 		{Kind: KUnion, HasNone: true, Fields: []*Ty{{Kind: KVector, N: 2, Elem: l4}, {Kind: KUint, N: 4}}},
+		// a dynamic field that cannot be empty followed by one that can absorb the remaining bytes
+		{Kind: KContainer, Fields: []*Ty{{Kind: KBitlist, N: 9}, l4}},
+		{Kind: KContainer, Fields: []*Ty{{Kind: KUnion, HasNone: true, Fields: []*Ty{u8}}, l4}},
+		{Kind: KContainer, Fields: []*Ty{{Kind: KContainer, Fields: []*Ty{l4}}, l4}},
+		{Kind: KList, N: 4, Elem: &Ty{Kind: KUnion, HasNone: true, Fields: []*Ty{{Kind: KUint, N: 2}, {Kind: KList, N: 8, Elem: u8}}}},
 	}
 	words := []uint32{0, 1, 3, 4, 5, 7, 8, 9, 11, 12, 13, 16, 0xffffffff, 0x80000000}
 	for _, t := range offTypes {
